@@ -129,7 +129,11 @@ def check_structure(acc, domk, si, seed, tier):
     prob = M.Problem(attrs, sizes, struct, si, 'pos', seed)
     T = prob.T
     fails = []
-    eng, ms = setup(attrs, sizes, prob.fresh_measurements(), T, 'L2')
+    ms_in = prob.fresh_measurements()
+    y_before = [np.array(m_[1], copy=True) for m_ in ms_in]
+    eng, ms = setup(attrs, sizes, ms_in, T, 'L2')
+    if any(not np.array_equal(a, np.asarray(m_[1])) for a, m_ in zip(y_before, ms_in)):
+        fails.append(('inputs-mutated', 'setting up the objective modified the caller\'s answer arrays (a later call on the same measurements optimises a different loss)'))
     model = eng.model
     cl_list = list(model.cliques)
     rng = np.random.RandomState(seed * 7919 + si)
